@@ -1,12 +1,11 @@
 /-
-Lemmas for the ITF-8 / LTF-8 models.  The bit-level identities use `bv_decide`
-(each call adds a `._native.bv_decide.ax_*` axiom: the LRAT certificate is checked by
-compiled code, see DESIGN.md §4); everything else is kernel-checked.
+Lemmas for the ITF-8 / LTF-8 models.  Everything is kernel-checked: the bit-level inverse identities
+are in Hts.Lemmas.Itf8Kernel (no bv_decide).
 GENERATED skeleton (by hand-run script), then committed: this file is source, not output.
 -/
 import Hts.Model.Itf8
 import Hts.Model.Ltf8
-import Std.Tactic.BVDecide
+import Hts.Lemmas.Itf8Kernel
 set_option maxHeartbeats 1000000
 open Hts.GoPrim
 
@@ -18,27 +17,8 @@ theorem width_4 (b : Byte) (h0 : b.ult 0x80#8 = false) (h1 : b.ult 0xc0#8 = fals
 theorem width_5 (b : Byte) (h0 : b.ult 0x80#8 = false) (h1 : b.ult 0xc0#8 = false) (h2 : b.ult 0xe0#8 = false) (h3 : b.ult 0xf0#8 = false) : width b = 5 := by simp [width, h0, h1, h2, h3]
 theorem width_range (x : Byte) : 1 ≤ width x ∧ width x ≤ 5 := by
   unfold width; (repeat' split) <;> omega
-theorem decode_encode (v : BitVec 32) : decode (encode v) = (v, len v, true) := by
-  unfold encode len
-  split
-  · have hw := width_1 (v.setWidth 8) (by bv_decide)
-    simp [decode, hw, z]
-    try bv_decide
-  split
-  · have hw := width_2 ((v >>> 8).setWidth 8 &&& 0x3f#8 ||| 0x80#8) (by bv_decide) (by bv_decide)
-    simp [decode, hw, z]
-    try bv_decide
-  split
-  · have hw := width_3 ((v >>> 16).setWidth 8 &&& 0x1f#8 ||| 0xc0#8) (by bv_decide) (by bv_decide) (by bv_decide)
-    simp [decode, hw, z]
-    try bv_decide
-  split
-  · have hw := width_4 ((v >>> 24).setWidth 8 &&& 0x0f#8 ||| 0xe0#8) (by bv_decide) (by bv_decide) (by bv_decide) (by bv_decide)
-    simp [decode, hw, z]
-    try bv_decide
-  · have hw := width_5 ((v >>> 28).setWidth 8 ||| 0xf0#8) (by bv_decide) (by bv_decide) (by bv_decide) (by bv_decide)
-    simp [decode, hw, z]
-    try bv_decide
+theorem decode_encode (v : BitVec 32) : decode (encode v) = (v, len v, true) :=
+  Hts.Lemmas.Kernel.Itf8K.decode_encode v
 
 theorem encode_length (v : BitVec 32) : ((encode v).length : Int) = len v := by
   unfold encode len; (repeat' split) <;> rfl
@@ -74,43 +54,8 @@ theorem width_8 (b : Byte) (h0 : b.ult 0x80#8 = false) (h1 : b.ult 0xc0#8 = fals
 theorem width_9 (b : Byte) (h0 : b.ult 0x80#8 = false) (h1 : b.ult 0xc0#8 = false) (h2 : b.ult 0xe0#8 = false) (h3 : b.ult 0xf0#8 = false) (h4 : b.ult 0xf8#8 = false) (h5 : b.ult 0xfc#8 = false) (h6 : b.ult 0xfe#8 = false) (h7 : b.ult 0xff#8 = false) : width b = 9 := by simp [width, h0, h1, h2, h3, h4, h5, h6, h7]
 theorem width_range (x : Byte) : 1 ≤ width x ∧ width x ≤ 9 := by
   unfold width; (repeat' split) <;> omega
-theorem decode_encode (v : BitVec 64) : decode (encode v) = (v, len v, true) := by
-  unfold encode len
-  split
-  · have hw := width_1 (v.setWidth 8) (by bv_decide)
-    simp [decode, hw, z]
-    try bv_decide
-  split
-  · have hw := width_2 ((v >>> 8).setWidth 8 &&& 0x3f#8 ||| 0x80#8) (by bv_decide) (by bv_decide)
-    simp [decode, hw, z]
-    try bv_decide
-  split
-  · have hw := width_3 ((v >>> 16).setWidth 8 &&& 0x1f#8 ||| 0xc0#8) (by bv_decide) (by bv_decide) (by bv_decide)
-    simp [decode, hw, z]
-    try bv_decide
-  split
-  · have hw := width_4 ((v >>> 24).setWidth 8 &&& 0xf#8 ||| 0xe0#8) (by bv_decide) (by bv_decide) (by bv_decide) (by bv_decide)
-    simp [decode, hw, z]
-    try bv_decide
-  split
-  · have hw := width_5 ((v >>> 32).setWidth 8 &&& 0x7#8 ||| 0xf0#8) (by bv_decide) (by bv_decide) (by bv_decide) (by bv_decide) (by bv_decide)
-    simp [decode, hw, z]
-    try bv_decide
-  split
-  · have hw := width_6 ((v >>> 40).setWidth 8 &&& 0x3#8 ||| 0xf8#8) (by bv_decide) (by bv_decide) (by bv_decide) (by bv_decide) (by bv_decide) (by bv_decide)
-    simp [decode, hw, z]
-    try bv_decide
-  split
-  · have hw := width_7 ((v >>> 48).setWidth 8 &&& 0x1#8 ||| 0xfc#8) (by bv_decide) (by bv_decide) (by bv_decide) (by bv_decide) (by bv_decide) (by bv_decide) (by bv_decide)
-    simp [decode, hw, z]
-    try bv_decide
-  split
-  · have hw := width_8 (0xfe#8) (by bv_decide) (by bv_decide) (by bv_decide) (by bv_decide) (by bv_decide) (by bv_decide) (by bv_decide) (by bv_decide)
-    simp [decode, hw, z]
-    try bv_decide
-  · have hw := width_9 (0xff#8) (by bv_decide) (by bv_decide) (by bv_decide) (by bv_decide) (by bv_decide) (by bv_decide) (by bv_decide) (by bv_decide)
-    simp [decode, hw, z]
-    try bv_decide
+theorem decode_encode (v : BitVec 64) : decode (encode v) = (v, len v, true) :=
+  Hts.Lemmas.Kernel.Ltf8K.decode_encode v
 
 theorem encode_length (v : BitVec 64) : ((encode v).length : Int) = len v := by
   unfold encode len; (repeat' split) <;> rfl
